@@ -1,6 +1,7 @@
 (* C06: the library calls Model/Interp.v leaves outside the model ([OutOfModel]), brought inside
    through the hooks of Model/InterpSafety.v section 5:
-     - the directive escapeJsString (text/template.JSEscapeString on value.String(), Model/JsEscape.v),
+     - the directive escapeJsString (the escaper directiveEscapeJsString calls on value.String(): Model/JsEscape.v js_escape_soy,
+       text/template.JSEscapeString or internal/jsescape -- Generated/Tables.v jsstr_pair_html says which),
      - the directive json (encoding/json.Marshal on the VALUE: null, booleans, integers, floats of the
        printing domain, strings with the HTML-safe escaping of Model/JsEscape.v, lists, maps with sorted
        keys; NaN and the infinities are json's UnsupportedValueError, i.e. directiveJson's panic),
@@ -77,7 +78,7 @@ Definition dir_json (v : option value) (_ : list value) : outcome (option value)
 Definition dir_escape_js (v : option value) (_ : list value) : outcome (option value) :=
   match v with
   | None => Err e_nilresult
-  | Some x => s <- value_string x ;; Ok (Some (VStr (js_escape is_print_tbl s)))
+  | Some x => s <- value_string x ;; Ok (Some (VStr (js_escape_soy jsstr_pair_html is_print_tbl s)))
   end.
 
 Definition x_dirs (name : bstr) : option dir_entry :=
